@@ -396,7 +396,8 @@ class YAMLPath:
         # pylint: disable=locally-disabled,too-many-nested-blocks
         for char_idx, char in enumerate(yaml_path):
             demarc_count = len(demarc_stack)
-            if next_char_must_be and char == next_char_must_be:
+            if (next_char_must_be and char == next_char_must_be
+                    and not escape_next):
                 next_char_must_be = None
 
             if escape_next:
